@@ -5,6 +5,7 @@ The protocol's positions are in UTF-16 code units (characters for text in the BM
 is built in plc2x; a Token field counts as byte-valued when the slice of its producer (the Token aggregate in
 lexer::tokenize) reaches a byte quantity (Lexer::span(), len_utf8, str::len).  Values computed from text
 (`encode_utf16().count()`, `chars().count()`) are not numeric flows and end the slice."""
+import re
 from vlib.mir import op_place, loc_str, norm
 from vlib.numflow import sources_of
 from rules.c05 import BYTE_CALLS, BYTE_FIELDS
@@ -83,6 +84,52 @@ def overridden(ctx, b, fld, bytef):
     return True
 
 
+def _closure_of(ctx, b, op):
+    p = op_place(op)
+    d = b.single_def(p[0]) if p is not None and not p[1] else None
+    if d and d[0] == "stmt" and d[3][0] == "agg" and d[3][1].get("k") == "closure":
+        bs = ctx.prog.get(norm(d[3][1]["def"]))
+        return bs[0] if bs else None
+    return None
+
+
+def codepoint_counters(ctx, b, operand, depth=3):
+    """text-derived counts on the numeric slice of `operand` that are in code points: `chars().count()`, or a function on the slice
+    that steps through `str::chars()` adding a constant per character (and never `char::len_utf16`).  Closures handed to
+    Option::map/map_or/and_then on the way are followed."""
+    from vlib.numflow import Slice
+    out = []
+    sl = Slice(ctx.prog)
+    sl.operand(b, operand, [])
+    todo = list(sl.calls)
+    seen_closures = set()
+    bodies = {k[0] for k in sl.visited if isinstance(k, tuple) and k and isinstance(k[0], str)}
+    while todo:
+        cb, c = todo.pop()
+        nm = c.callee or c.u or ""
+        if nm.endswith(("Iterator::count",)) and "Chars" in (c.ga or "") and "EncodeUtf16" not in (c.ga or ""):
+            out.append("chars().count() in %s" % norm(cb.id).split("::")[-1])
+        if re.search(r"Option(::<T>)?::(map|map_or|map_or_else|and_then)$", nm):
+            for a in c.args[1:]:
+                k = _closure_of(ctx, cb, a)
+                if k is not None and k.id not in seen_closures and len(seen_closures) < 8:
+                    seen_closures.add(k.id)
+                    s2 = Slice(ctx.prog)
+                    s2.local_ret(k, [])
+                    todo.extend(s2.calls)
+                    bodies |= {kk[0] for kk in s2.visited if isinstance(kk, tuple) and kk and isinstance(kk[0], str)}
+                    bodies.add(k.id)
+    for bid in sorted(bodies):
+        bd = ctx.prog.body(bid)
+        if bd is None or bd.f["crate"] != "ironplcc" or bd.id == b.id:
+            continue
+        names = [(c.callee or c.u or "") for c in bd.calls()]
+        steps_chars = any(n.endswith("str::<impl str>::chars") or ("Chars" in n and n.endswith("::next")) for n in names)
+        if steps_chars and not any("len_utf16" in n or "encode_utf16" in n for n in names):
+            out.append("%s() steps through chars() adding one per character" % norm(bd.id).split("::")[-1])
+    return sorted(set(out))
+
+
 def run(ctx, rep, rid="R-C15-units"):
     r = rep.rule(rid, "delta_start and length of every SemanticToken built in plc2x are not byte quantities (numeric slice reaches no byte-valued "
                       "token field, no str/String::len, no span offset): non-ASCII text in or before a token would shift or stretch its range",
@@ -105,6 +152,13 @@ def run(ctx, rep, rid="R-C15-units"):
                 bad = sorted(x[1].split("::")[-1] + "()" for x in src if x[0] == "call" and BYTE_CALLS.search(x[1]))
                 bad += sorted("Token.%s (bytes: %s)" % (x[2], ",".join(bytef[x[2]])) for x in src if x[0] == "field" and x[1] == TOKEN and x[2] in bytef)
                 bad += sorted("%s.%s" % (x[1].split("::")[-1], x[2]) for x in src if x[0] == "field" and (x[1], x[2]) in BYTE_FIELDS)
+                cp = codepoint_counters(ctx, b, ops[fld])
+                if cp:
+                    n += 1
+                    fn = norm(b.id).replace("ironplcc::", "")
+                    r.finding("%s|SemanticToken.%s|code-points" % (fn, fld), loc_str(b.f, s[3]), "%s is counted in characters (code points), not UTF-16 code units (%s): a character outside the "
+                              "BMP (an emoji in a comment or string) %s" % (fld, "; ".join(cp), "inside the lexeme shortens its range" if fld == "length" else "before the token on its line shifts its range left"))
+                    continue
                 if not [x for x in src if x[0] != "const" and not (x[0] == "field" and "SemanticToken" in x[1])] and not bad:
                     continue
                 n += 1
